@@ -45,8 +45,11 @@ def file_events(path: str, tail_head: int, tail_last: int, zone_mod: int, phase:
     from pyoda_time.time_zones.io._tzdb_stream_field import _TzdbStreamField
 
     raw = open(path, "rb").read()
-    # a provider over the OTHER real file exists in the same process and has served every id first: what this file's provider
-    # (and the built-in one) serve afterwards is still this file's data
+    source = TzdbDateTimeZoneSource.from_stream(io.BytesIO(raw))
+    provider = DateTimeZoneCache(source)
+    len(list(DateTimeZoneProviders.tzdb.ids))            # (the built-in provider exists by now as well)
+    # a provider over the OTHER real file is then made in the same process and serves every id before this file's provider (or the
+    # built-in one) is asked for anything: what they serve is still this file's data
     try:
         others = [str(REPO / f) for f in FILES if not path.endswith(f)]
         for op_ in others:
@@ -55,8 +58,6 @@ def file_events(path: str, tail_head: int, tail_last: int, zone_mod: int, phase:
                 oprov[oid]
     except Exception:  # noqa: BLE001 - the other file's own run reports its problems
         pass
-    source = TzdbDateTimeZoneSource.from_stream(io.BytesIO(raw))
-    provider = DateTimeZoneCache(source)
     builtin = path.endswith("time_zones/Tzdb.nzd")
     evs = []
     pool = None
